@@ -26,6 +26,7 @@ meta = {
     'checks_that_fire': fired,
     'target_check_fires': res['property'] in fired,
     'first_report': {p: res['checks'][p]['first'][:2] for p in fired},
+    'checks_analysis_broken': sorted(p for p, v in res['checks'].items() if v['rc'] not in (0, 1)),
 }
 json.dump(meta, open(os.path.join(dst, 'meta.json'), 'w'), indent=1)
 print(sid, 'target', res['property'], 'fires', fired)
